@@ -12,9 +12,28 @@ META = {
 }
 
 THEOREMS = [
+    "Qentem.Props.C19.step_exact_partial",
+    "Qentem.Props.C19.run_exact",
+    "Qentem.Props.C19.sequence_exact_native",
+    "Qentem.Props.C19.sequence_exact_hand",
+    "Qentem.Props.C19.mul_helper_exact",
+    "Qentem.BigInt.add_spec",
+    "Qentem.BigInt.sub_spec",
+    "Qentem.BigInt.multiply_spec",
+    "Qentem.BigInt.divide_spec",
+    "Qentem.BigInt.mulOK_native",
+    "Qentem.BigInt.mulOK_hand",
+    "Qentem.BigInt.divOK_native",
+    "Qentem.BigInt.assign_small_spec",
+    "Qentem.BigInt.or_small_spec",
+    "Qentem.BigInt.and_small_spec",
+    "Qentem.BigInt.cmpWord_spec",
+    "Qentem.BigInt.narrow_small_spec",
+    "Qentem.BigInt.findLastBit_spec",
+    "Qentem.BigInt.clear_spec",
 ]
 
-OPEN = []
+OPEN = ["Qentem.Props.C19.C19_full", "Qentem.Props.C19.div_helper_exact"]
 
 # (W, n) of the fixed instantiations compiled into harness/bigint_harness.cpp
 INST = [(8, 8), (8, 9), (8, 16), (8, 32), (8, 256),
